@@ -489,13 +489,13 @@ class MemorizedFunc(Logger):
             return False
 
         # Call the user defined cache validation callback
-        metadata = self.store_backend.get_metadata(call_id)
-        if (
-            self.cache_validation_callback is not None
-            and not self.cache_validation_callback(metadata)
-        ):
-            self.store_backend.clear_item(call_id)
-            return False
+        if self.cache_validation_callback is not None:
+            metadata = self.store_backend.get_metadata(call_id)
+            # An entry whose metadata cannot be read (interrupted or concurrent
+            # write of the entry) cannot be validated: recompute it.
+            if not metadata or not self.cache_validation_callback(metadata):
+                self.store_backend.clear_item(call_id)
+                return False
 
         return True
 
